@@ -8,6 +8,8 @@ if base.startswith("m2_"):          # second wave: C01_a/C01_b of the wave becom
     name = pid_ + "_" + {"a": "c", "b": "d"}[letter]
 elif base.startswith("m3_"):        # third wave: one change per property, suffix e
     name = base[3:] + "_e"
+elif base.startswith("m4_"):        # fourth wave: suffix f
+    name = base[3:] + "_f"
 else:
     name = base.replace("mut_", "")
 pid = name.split("_")[0]
